@@ -95,15 +95,35 @@ Proof.
   lra.
 Qed.
 
-(* liouville_is_CP says "not CP" for transposition, for every valid eigendecomposition and every tolerance in [0,1) *)
+(* numerical range of the swap matrix: [-1, 1] *)
+Lemma choiT_range x : -1 * vnorm2 4 x <= fst (qform 4 ChoiT x) <= 1 * vnorm2 4 x.
+Proof.
+  rewrite (qform_ext 4 _ _ x choiT_swap). unfold qform, swapF, vnorm2. simpl.
+  destruct (x 0%nat) as [a0 b0], (x 1%nat) as [a1 b1], (x 2%nat) as [a2 b2], (x 3%nat) as [a3 b3].
+  csimp.
+  match goal with |- _ <= ?m <= _ =>
+    replace m with (a0 * a0 + b0 * b0 + 2 * (a1 * a2 + b1 * b2) + (a3 * a3 + b3 * b3)) by ring end.
+  pose proof (Rle_0_sqr (a1 - a2)). pose proof (Rle_0_sqr (a1 + a2)).
+  pose proof (Rle_0_sqr (b1 - b2)). pose proof (Rle_0_sqr (b1 + b2)). unfold Rsqr in *.
+  split; nra.
+Qed.
+
+(* liouville_is_CP says "not CP" for transposition, for every valid eigendecomposition and every tolerance in [0,1)
+   (atol = 0 selects the default eps d^3 max(1, max|D|) = 8 eps) *)
 Theorem transpose_not_cp Dl V atol : eig_valid 4 Dl V ChoiT -> 0 <= atol < 1 ->
   liouville_is_CP RO 2 atol Dl = 0.
 Proof.
   intros He Ha. unfold liouville_is_CP. apply (flag_zero_of_witness 4 Dl V ChoiT _ He).
   exists xT. rewrite choiT_qform, xT_norm. cbn [fst].
-  assert (eff_atol RO 2 atol < 1).
-  { destruct (Req_dec atol 0) as [->|Hn]. rewrite eff_atol_zero. apply basis_atol_2.
-    rewrite eff_atol_nonzero; auto. lra. }
+  assert (eff_atol RO 2 atol Dl < 1).
+  { destruct (Req_dec atol 0) as [->|Hn]; [|rewrite eff_atol_nonzero; auto; lra].
+    rewrite eff_atol_zero.
+    assert (M1 : max1abs RO Dl = 1).
+    { pose proof (eig_range 4 Dl V ChoiT (-1) 1 He choiT_range) as R.
+      destruct (max1abs_spec Dl) as [H1 [_ [H3|[ev [Hin H3]]]]]; auto.
+      rewrite Forall_forall in R. specialize (R ev Hin).
+      assert (Rabs ev <= 1) by (apply Rabs_le; lra). lra. }
+    rewrite M1, Rmult_1_r. apply basis_atol_2. }
   lra.
 Qed.
 
@@ -144,11 +164,11 @@ Proof.
   split. lra. intros E. rewrite E in H. lra.
 Qed.
 
-(* the closed-form path is selected by the label alone: on a re-ordered Gell-Mann basis that still
-   carries the label (d = 13 > 12) it does not compute the Liouville representation w.r.t. that basis *)
+(* before commit 63446ae the closed-form path was selected by the label alone: on a re-ordered Gell-Mann basis
+   that still carries the label (d = 13 > 12) it did not compute the Liouville representation w.r.t. that basis *)
 Theorem closed_path_trusts_label :
   Permutation ggm13_swapped (ggm_basis RO 13) /\
-  rget RO (liouville_representation RO 13 true (mid RO 13) ggm13_swapped) 1 1 = 0 /\
+  rget RO (liouville_representation_prefix RO 13 true (mid RO 13) ggm13_swapped) 1 1 = 0 /\
   rget RO (liouville_generic RO 13 (mid RO 13) ggm13_swapped) 1 1 = 1.
 Proof.
   split. apply ggm13_perm.
@@ -165,7 +185,7 @@ Proof.
   assert (M20 : mget RO M 2 0 = cofr RO (inv_sqrt2 RO)).
   { rewrite HM. rewrite tbu_id by lia. unfold ggm_sym. rewrite mget_mbuild by lia. reflexivity. }
   split.
-  - unfold liouville_representation. change (true && Nat.ltb ggm_threshold 13) with true. cbv iota.
+  - unfold liouville_representation_prefix. change (true && Nat.ltb ggm_threshold 13) with true. cbv iota.
     unfold rget, vg, nthv, liouville_closed.
     rewrite (nth_map_default (A:=Mat (T:=R)) (ggm_expand_re RO 13) _ _ [] [])
       by (unfold conjugated_basis; rewrite map_length; auto).
@@ -184,6 +204,43 @@ Proof.
     assert (H2 : sqrt (1 + 1) <> 0) by (intros E; rewrite E in H1; lra).
     unfold inv_sqrt2. csimp. set (q := sqrt (1 + 1)) in *.
     replace ((1 / q + 1 / q) / q) with ((1 + 1) / (q * q)) by (field; auto). rewrite H1. field.
+Qed.
+
+(* the repaired path switch compares the basis with Basis.ggm(d): the re-ordered basis fails the test and
+   gets the generic expansion *)
+Lemma basis_atol_13 : basis_atol RO 13 < / 2.
+Proof.
+  rewrite basis_atol_val. simpl INR.
+  assert (H : 8192 <= 2 ^ 52).
+  { replace 8192 with (2 ^ 13) by (simpl; ring). apply Rle_pow; [lra | lia]. }
+  assert (0 < / 2 ^ 52 <= / 8192).
+  { split. apply Rinv_0_lt_compat. lra. apply Rinv_le_contravar; lra. }
+  lra.
+Qed.
+Theorem label_is_checked :
+  rget RO (liouville_representation RO 13 true (mid RO 13) ggm13_swapped) 1 1 = 1.
+Proof.
+  assert (Hn : (1 < length ggm13_swapped)%nat) by (rewrite ggm13_len; lia).
+  rewrite (LR_entry 13 ggm13_swapped true (mid RO 13) 1 1 Hn Hn).
+  assert (F : Rgtb (basis_is_ggm_flag RO 13 ggm13_swapped) (half RO) = false).
+  { destruct (Rgtb (basis_is_ggm_flag RO 13 ggm13_swapped) (half RO)) eqn:E; auto. exfalso.
+    apply flag_gt_half in E. apply ggm_flag_one_iff in E.
+    specialize (E 1%nat 0%nat 1%nat ltac:(lia) ltac:(lia) ltac:(lia)). unfold bdev in E.
+    change (nthm ggm13_swapped 1) with (ggm_sym RO 13 (0, 2)%nat) in E.
+    rewrite ggm13_split in E. change (nthm (ggm_id RO 13 :: ggm_sym RO 13 (0, 1)%nat :: ggm_sym RO 13 (0, 2)%nat :: skipn 3 (ggm_basis RO 13)) 1)
+      with (ggm_sym RO 13 (0, 1)%nat) in E.
+    unfold ggm_sym in E. rewrite !mget_mbuild in E by lia. cbn [fst snd Nat.eqb andb orb] in E.
+    pose proof basis_atol_13 as B.
+    assert (H1 : sqrt (1 + 1) * sqrt (1 + 1) = 1 + 1) by (apply sqrt_sqrt; lra).
+    assert (H0 : 0 < sqrt (1 + 1)) by (apply sqrt_lt_R0; lra).
+    set (t := basis_atol RO 13) in *.
+    assert (Hs : / 2 <= sqrt (cabs2 RO (csub' 0c (cofr RO (inv_sqrt2 RO))))).
+    { apply Rsqr_incr_0_var; [|apply sqrt_pos]. rewrite Rsqr_sqrt by apply cabs2_nonneg.
+      unfold Rsqr, inv_sqrt2, sqrt2, o2. csimp. set (q := sqrt (1 + 1)) in *.
+      replace ((0 - 1 / q) * (0 - 1 / q) + (0 - 0) * (0 - 0)) with (1 / (q * q)) by (field; lra).
+      rewrite H1. lra. }
+    lra. }
+  rewrite F, andb_false_r. apply (proj2 (proj2 closed_path_trusts_label)).
 Qed.
 
 (* ---- the index arrays of the source produce the model's pair list (checked by computation, d < 64) ---- *)
